@@ -625,6 +625,10 @@ def error_branch_reads(P, R, rule='C14.NULL.1'):
 
 
 def run(P, R, tier):
+    # the merge moves nodes from the scratch tree into live sets: insertion must not rely on a node's old links
+    from . import c19
+    from ..report import Remap
+    c19.link_insert(P, R, 'C14.LINK.1')
     dangling_fields(P, R)
     error_branch_reads(P, R)
     decoder_advance(P, R)
